@@ -478,6 +478,17 @@ impl BytecodeVM {
         }
     }
 
+    /// Verification hook (only with `--cfg tsrun_verif`): number of open block scopes of
+    /// the current frame followed by those of the suspended caller frames (innermost first).
+    #[cfg(tsrun_verif)]
+    pub fn verif_scope_profile(&self) -> Vec<usize> {
+        let mut v = vec![self.saved_env_stack.len()];
+        for frame in self.trampoline_stack.iter().rev() {
+            v.push(frame.saved_env_stack.len());
+        }
+        v
+    }
+
     /// Build a stack trace from the current VM state.
     /// Returns a vector of StackFrame entries from innermost to outermost.
     pub fn build_stack_trace(&self) -> Vec<StackFrame> {
